@@ -136,6 +136,15 @@ def cases_v(terms):
     return "\n".join(lines) + "\n"
 
 
+def slender_marginal(ctx, text, r3):
+    """the run at -e 1e-3 stopped within a factor 50 of that error as well, and -e 0.1 solves"""
+    m = re.search(r"error ([-+0-9.eE]+) in equation \d+ \(max allowed is ([-+0-9.eE]+)\)", (r3.stderr or r3.stdout) or "")
+    if r3.status == 0 or not m or float(m.group(1)) > 50 * float(m.group(2)):
+        return False
+    r4 = cli.run(ctx, ["solve", "-e", "0.1", "g.inkfem"], files={"g.inkfem": text}, name="c19s", timeout=300)
+    return r4.status == 0
+
+
 def run(ctx):
     import random
     rng = random.Random(ctx.seed)
@@ -185,12 +194,15 @@ def run(ctx):
                 if marginal and r3.status == 0 and listed:
                     known.add("K-C19-default-error-vs-load-magnitude: generate --spans %d --levels %d --span %s --level %s --load %s does not solve at the default --error 1e-5 (%s), solves with -e 1e-3"
                               % (s, l, G_dec(span), G_dec(height), G_dec(load), m.group(0)[:60]))
+                elif marginal and any(f.get("id") == "K-C19-slender-frames-marginal-convergence" for f in C.load_known().get("findings", [])) and slender_marginal(ctx, r.stdout, r3):
+                    known.add("K-C19-slender-frames-marginal-convergence: generate --spans %d --levels %d --span %s --level %s --load %s stops within a factor 50 of the allowed error at 1e-5 and at 1e-3, solves with -e 0.1"
+                              % (s, l, G_dec(span), G_dec(height), G_dec(load)))
                 elif span >= 1 and height >= 1:
                     # spans of 0.00025 against a steel section are outside any sensible use; default-like lengths must solve
                     ctx.violation("the frame generated for spans=%d levels=%d span=%s level=%s load=%s does not solve: %s" % (s, l, float(span), float(height), float(load), msg[-200:]),
                                   {"config": cfg, "args": args})
                     concrete += 1
-    for k in sorted(known)[:3]:
+    for k in sorted(known)[:4]:
         ctx.known.append(k)
     validated = 0
     corr = None
